@@ -34,9 +34,122 @@ CHECKS = {
     },
 }
 
+CHECKS["C02"] = {
+    "level": "exploration",
+    "shards": {"quick": 16, "thorough": 32},
+    "budget": {"quick": 40, "thorough": 420},
+    "rule": GEN_RULE + "; inputs are model-built encodings with random garbage in padding and unassigned bit-field "
+                       "bits, plus arbitrary bytes; the real dumps() of the real parse is compared bit by bit with the "
+                       "input under the reference model's data-bit mask",
+    "anchors": ["types/structure.py", "bitbuffer.py", "types/base.py", "types/char.py", "types/wchar.py"],
+    "required_reach": ["types/structure.py:StructureMetaType._write", "types/structure.py:StructureMetaType._read",
+                       "bitbuffer.py:BitBuffer.flush", "types/base.py:MetaType._write_0",
+                       "types/char.py:CharArray._write", "<compiled>"],
+    "required_cells": ["align:True", "align:False", "endian:<", "endian:>", "feat:bits", "feat:arr:null"],
+    "assumptions": ASSUME_COMMON,
+}
+
+CHECKS["C01"] = {
+    "level": "exploration",
+    "shards": {"quick": 16, "thorough": 32},
+    "budget": {"quick": 40, "thorough": 420},
+    "rule": GEN_RULE + "; values come from parsing hostile bytes and from direct construction out of random model "
+                       "values; each is dumped by the real writer and re-parsed by the real reader; for every "
+                       "integer-like leaf an out-of-range value is assigned and dumps() must raise",
+    "anchors": ["types/", "bitbuffer.py"],
+    "required_reach": ["types/structure.py:StructureMetaType._write", "types/structure.py:StructureMetaType._read",
+                       "bitbuffer.py:BitBuffer.write", "bitbuffer.py:BitBuffer.read", "types/base.py:BaseArray._write",
+                       "types/int.py:Int._write", "types/packed.py:Packed._write", "types/enum.py:EnumMetaType._write",
+                       "types/pointer.py:Pointer._write", "<compiled>"],
+    "required_cells": ["align:True", "align:False", "endian:<", "endian:>", "feat:bits:signed", "feat:union",
+                       "feat:ptr", "feat:arr:struct"],
+    "assumptions": ASSUME_COMMON,
+}
+
+CHECKS["C04"] = {
+    "level": "exploration",
+    "shards": {"quick": 16, "thorough": 32},
+    "budget": {"quick": 40, "thorough": 300},
+    "rule": GEN_RULE + "; fixed-size definitions only; size, alignment and every member offset (recursively) are "
+                       "compared with an independent layout model and, on the mappable subset, with ctypes "
+                       "(the host C ABI); len(T), sizeof(T) inside an expression, bytes consumed and bytes dumped "
+                       "must agree",
+    "anchors": ["types/structure.py", "cstruct.py", "expression.py"],
+    "required_reach": ["types/structure.py:StructureMetaType._calculate_size_and_offsets",
+                       "types/structure.py:UnionMetaType._calculate_size_and_offsets",
+                       "cstruct.py:cstruct._make_array", "cstruct.py:cstruct._make_pointer",
+                       "expression.py:Expression.evaluate"],
+    "required_cells": ["align:True", "align:False", "alignclass:1", "alignclass:2", "alignclass:4", "alignclass:8",
+                       "alignclass:16"],
+    "assumptions": ASSUME_COMMON,
+}
+
+CHECKS["C06"] = {
+    "level": "exploration",
+    "shards": {"quick": 16, "thorough": 32},
+    "budget": {"quick": 45, "thorough": 420},
+    "rule": GEN_RULE + "; three workloads: (1) exhaustive: every composition of <=8 bits into <=3 fields on uint8/int8 "
+                       "units x all 256 unit contents x 2 endians x 2 readers; (2) straddling declarations that must "
+                       "be rejected; (3) generated bit-field-heavy definitions x pattern inputs (all ones, top bit, "
+                       "walking one, garbage); every BitBuffer.read/write/flush/reset anywhere is additionally "
+                       "checked by an invariant monitor (slices disjoint, contiguous from LSB/MSB, in range; written "
+                       "unit equals an independent accumulation)",
+    "anchors": ["bitbuffer.py", "types/structure.py", "compiler.py"],
+    "required_reach": ["bitbuffer.py:BitBuffer.read", "bitbuffer.py:BitBuffer.write", "bitbuffer.py:BitBuffer.flush",
+                       "bitbuffer.py:BitBuffer.reset", "compiler.py:_ReadSourceGenerator._generate_bits",
+                       "types/structure.py:StructureMetaType._calculate_size_and_offsets", "<compiled>"],
+    "required_cells": ["straddle", "aligned", "feat:bits:signed", "feat:bits:enum", "feat:bits:wide",
+                       "exh:uint8:<:compiled", "exh:uint8:>:interpreted", "exh:int8:>:compiled",
+                       "exh:int8:<:interpreted"],
+    "exhaustive": {"quick": False, "thorough": False},
+    "assumptions": ASSUME_COMMON,
+}
+
 NOT_APPLICABLE = {}
 
 MANIFEST_TEXT = {
+    "C06": {
+        "text": "Invariant-at-a-hook monitoring of the real BitBuffer (every read/write/flush/reset of interpreted and "
+                "generated readers and of the writer) plus model comparison of parse and dump; the 8-bit sub-space "
+                "(all compositions of <=8 bits into <=3 fields x 256 contents x endian x reader x signedness) is "
+                "enumerated completely on every run, wider units/neighbours/alignment are sampled; straddling "
+                "declarations must be rejected at load. Held-on-observed outside the enumerated sub-space.",
+        "design_ref": "DESIGN.md 4 C06",
+        "note": "out-of-range values written to a bit-field are outside the property ('every value that fits')",
+        "technique": "BitBuffer invariant monitor + reference bit-slicing model; exhaustive 8-bit sub-space",
+    },
+    "C04": {
+        "text": "Runtime observation of the real type objects built from generated fixed-size definitions in packed and "
+                "aligned mode and all pointer widths: size, alignment and member offsets are compared with an "
+                "independent layout model and with ctypes.Structure/Union (host C ABI) on the mappable subset, and "
+                "the four size observations (len, sizeof in an expression, bytes consumed, bytes dumped) are taken "
+                "from real executions. Held-on-observed.",
+        "design_ref": "DESIGN.md 4 C04",
+        "note": "ctypes covers 8-64 bit ints, floats, char, wchar, enums, pointers, arrays, nested structs/unions; "
+                "int24/48/128 and bit-field cases are judged by the model only",
+        "technique": "generated definitions checked against ctypes (C ABI oracle) and a layout model",
+    },
+    "C01": {
+        "text": "Runtime monitoring of the real dump->parse round trip over generated definitions x values (parsed "
+                "from hostile bytes and constructed directly) x endianness x alignment x reader mode; equality is "
+                "judged on normalised values and consumed length, and every integer-like leaf is additionally "
+                "assigned out-of-range values whose dump must raise. Held-on-observed.",
+        "design_ref": "DESIGN.md 4 C01",
+        "note": "NaN-aware equality; known findings K1 (union dump) and K7 (aligned struct ending in an EOF array) "
+                "are classified by mechanism, anything else is a violation",
+        "technique": "generated workloads on the real reader/writer with a round-trip oracle and overflow probes",
+    },
+    "C02": {
+        "text": "Runtime monitoring of parse-then-dump on the real library: for thousands of generated definitions "
+                "in every endianness x alignment x reader mode, canonical inputs with random garbage in all padding and "
+                "unassigned bit-field bits (and arbitrary bytes) are parsed and dumped, and the dump is compared bit by "
+                "bit with the input under the data-bit mask of an independent layout model; non-data bits must be "
+                "zero. Held-on-observed.",
+        "design_ref": "DESIGN.md 4 C02",
+        "note": "the data-bit mask comes from the reference model; NaN and non-minimal LEB128 inputs are outside the "
+                "property's domain and skipped (counted)",
+        "technique": "generated workloads + offline bitwise comparison under a reference-model mask",
+    },
     "C03": {
         "text": "Differential runtime monitoring: every generated definition is loaded twice (compiled/interpreted) in "
                 "each endianness x alignment x pointer width and both real readers are executed on model-built and "
